@@ -444,11 +444,20 @@ def signature_agreement(ctx, rule):
   construction function for classes."""
   prog = ctx.prog
   fac = ctx.func('config._make_gin_wrapper')
+
+  def root_callable(f, a, depth=0):
+    """The callable an argument is derived from: a helper may be handed what another signature helper computed from it."""
+    if isinstance(a, ast.Name) and depth < 3:
+      ds = [x for x in walk_local(fac.node) if isinstance(x, ast.Assign) and len(x.targets) == 1 and u(x.targets[0]) == a.id]
+      if len(ds) == 1 and isinstance(ds[0].value, ast.Call) and ds[0].value.args and \
+          prog.resolve_call(fac, ds[0].value) in set(SIG_HELPERS) | {'config._get_kwarg_defaults', 'config._get_cached_arg_spec'}:
+        return root_callable(f, ds[0].value.args[0], depth + 1)
+    return u(a)
   args = {}
   for f in [fac] + [x for x in fac.nested.values() if hasattr(x, 'node') and isinstance(x.node, (ast.FunctionDef,))]:
     for c in walk_local(f.node):
       if isinstance(c, ast.Call) and prog.resolve_call(f, c) in SIG_HELPERS and c.args:
-        args.setdefault(u(c.args[0]), []).append((f, c))
+        args.setdefault(root_callable(f, c.args[0]), []).append((f, c))
   ctx.expect_at_least('signature-inspecting helper calls in the wrapper factory', sum(len(v) for v in args.values()), 3)
   if len(args) > 1:
     major = max(args, key=lambda k: len(args[k]))
